@@ -316,6 +316,56 @@ func inscribed(r *run.Rng) []poly {
 	return ps
 }
 
+// fanTouch: three or more rings meeting at one point P (on the shell or inside), plus bridges between
+// the rings that meet there, so that a cycle of the touch graph may pass through a point shared by
+// several rings (interior disconnected) or just fail to.
+func fanTouch(r *run.Rng) poly {
+	side := 8
+	shell := ring{{0, 0}, {side, 0}, {side, side}, {0, side}, {0, 0}}
+	P := ip{4, 0}
+	if r.Bool() {
+		P = ip{4, 2}
+	}
+	y0 := P.y
+	// petals with their apex at P
+	petals := []ring{
+		{P, {1, y0 + 3}, {3, y0 + 4}, P},
+		{P, {5, y0 + 4}, {7, y0 + 3}, P},
+		{P, {3, y0 + 5}, {5, y0 + 5}, P}, // middle petal (overlaps nothing: between the two others)
+	}
+	p := poly{shell}
+	use := []int{0, 1}
+	if r.Chance(1, 3) {
+		use = []int{0, 1, 2}
+		// with the middle petal present the outer ones must stay clear of it
+		petals[0] = ring{P, {1, y0 + 2}, {2, y0 + 4}, P}
+		petals[1] = ring{P, {6, y0 + 4}, {7, y0 + 2}, P}
+	}
+	for _, i := range use {
+		p = append(p, petals[i])
+	}
+	// bridges between far vertices of two petals
+	a, b := p[1], p[2]
+	switch r.Intn(4) {
+	case 0: // touches both: closes a cycle through P
+		p = append(p, ring{a[2], b[1], {4, y0 + 6}, a[2]})
+	case 1: // touches one only
+		p = append(p, ring{a[2], {4, y0 + 6}, {3, y0 + 6}, a[2]})
+	case 2: // near miss
+		p = append(p, ring{{a[2].x, a[2].y + 1}, {b[1].x, b[1].y + 1}, {4, y0 + 6}, {a[2].x, a[2].y + 1}})
+	}
+	// random hole order and start vertices (the shell stays first)
+	holes := p[1:]
+	for i := len(holes) - 1; i > 0; i-- {
+		j := r.Intn(i + 1)
+		holes[i], holes[j] = holes[j], holes[i]
+	}
+	for i := range holes {
+		holes[i] = rot(holes[i], r.Intn(len(holes[i])-1), r.Bool())
+	}
+	return p
+}
+
 // ---------- monitors ----------
 
 type candidate struct {
@@ -999,6 +1049,11 @@ func runAll(c *run.Ctx) {
 	for i := 0; i < c.N(4000, 40000); i++ {
 		c.Case("inscribed", i, func(k *run.K) {
 			judge(k, candidate{kind: "MultiPolygon", polys: inscribed(k.Rng)}, c.N(8, 16), false)
+		})
+	}
+	for i := 0; i < c.N(3000, 30000); i++ {
+		c.Case("fan-touch", i, func(k *run.K) {
+			judge(k, candidate{kind: "Polygon", polys: []poly{fanTouch(k.Rng)}}, c.N(8, 16), false)
 		})
 	}
 	for i := 0; i < c.N(3000, 30000); i++ {
